@@ -3,6 +3,7 @@ package checks
 import (
 	"bytes"
 	"errors"
+	"sort"
 	"fmt"
 	"time"
 
@@ -411,6 +412,140 @@ func c08Ladder(c *mc.Ctx) {
 	c08run(c, k, 8*(n+e)*(n+e)+64)
 }
 
+// c08LongChain: linear histories of about one and about two thousand commits (just below, at and above 1024
+// and 2048), one or two wants anywhere on the chain in both orders, no have / one have below, between or above
+// the wants, haves in one or two rounds. On a chain the oracle needs no bitmasks: ancestors of node i are 0..i.
+func c08LongChain(c *mc.Ctx) {
+	needRewrite("maporder:finder")
+	n := []int{1023, 1024, 1025, 1200, 2047, 2049, 2100}[c.Choose(7)]
+	pos := []int{5, n / 2, n - 2, n - 1}
+	w1 := pos[c.Choose(len(pos))]
+	w2 := pos[c.Choose(len(pos))]
+	have := []int{-1, 3, n/2 + 7, n - 2}[c.Choose(4)]
+	reverseWants := c.Bool()
+	twoRounds := c.Bool()
+	c.Shard()
+	g := &model.Graph{}
+	times := make([]int, n)
+	for i := 0; i < n; i++ {
+		if i == 0 {
+			g.Parents = append(g.Parents, []int{})
+		} else {
+			g.Parents = append(g.Parents, []int{i - 1})
+		}
+		times[i] = i
+	}
+	db := stores.NewMemStore()
+	tables := make([][]byte, n)
+	for i := range tables {
+		tables[i] = []byte(fmt.Sprintf("tbl-%012d", i))
+		db.PutRaw("tbl/"+string(tables[i]), []byte("t"))
+	}
+	sums, err := buildCommits(db, g, times, tables)
+	if err != nil {
+		panic(err)
+	}
+	rs := stores.NewMapRefStore()
+	rs.Set("heads/main", sums[n-1])
+	wants := []int{w1}
+	if w2 != w1 {
+		wants = append(wants, w2)
+	}
+	sort.Ints(wants)
+	desc := fmt.Sprintf("linear history of %d commits, ref on the tip; wants=%v (map order reversed: %v) have=%d haves in a second round: %v", n, wants, reverseWants, have, twoRounds)
+	c.Logf("%s", desc)
+	verifrt.MapPerm = func(site string, m int) []int {
+		if site == "finder.Wants" && m == 2 && reverseWants {
+			return []int{1, 0}
+		}
+		return nil
+	}
+	defer func() { verifrt.MapPerm = nil }()
+	var wantSums, haveSums [][]byte
+	for _, w := range wants {
+		wantSums = append(wantSums, sums[w])
+	}
+	if have >= 0 {
+		haveSums = [][]byte{sums[have]}
+	}
+	db.ResetCounters()
+	f := apiutils.NewClosedSetsFinder(db, rs, 0)
+	var acks [][]byte
+	if twoRounds {
+		if _, err = f.Process(wantSums, nil, false); err == nil && len(f.Wants) > 0 {
+			acks, err = f.Process(nil, haveSums, true)
+		}
+	} else {
+		acks, err = f.Process(wantSums, haveSums, true)
+	}
+	if err != nil {
+		var uw *apiutils.UnrecognizedWantsError
+		if errors.As(err, &uw) {
+			c.Fail("wants-refused", "every want is an ancestor of the only ref, yet Process refused: %v; %s", err, desc)
+		} else {
+			c.Fail("error", "Process returned %v; %s", err, desc)
+		}
+		return
+	}
+	maxWant := wants[len(wants)-1]
+	common := -1
+	for _, a := range acks {
+		i := indexOfSum(sums, a)
+		if i != have || have < 0 {
+			c.Fail("acks", "ack %x (node %d) is not the have %d of this request; %s", a, i, have, desc)
+			return
+		}
+		common = i
+	}
+	sent, err := f.CommitsToSend()
+	if err != nil {
+		c.Fail("error", "CommitsToSend returned %v; %s", err, desc)
+		return
+	}
+	// closure: sent + ancestors of the acked common commit cover 0..maxWant; parent-first; nothing above the highest want
+	covered := common
+	last := -1
+	seen := map[int]bool{}
+	for posn, cm := range sent {
+		i := indexOfSum(sums, cm.Sum)
+		if i < 0 || seen[i] {
+			c.Fail("closure", "CommitsToSend[%d] is not a commit of this history or is listed twice; %s", posn, desc)
+			return
+		}
+		seen[i] = true
+		if i > maxWant {
+			c.Fail("unreachable-sent", "node %d is sent but no want reaches it (highest want %d); %s", i, maxWant, desc)
+			return
+		}
+		if i > 0 && !seen[i-1] && i-1 > common {
+			c.Fail("parent-first", "node %d is listed before its parent %d, which is neither common nor listed earlier; %s", i, i-1, desc)
+			return
+		}
+		last = i
+	}
+	_ = last
+	for i := covered + 1; i <= maxWant; i++ {
+		if !seen[i] {
+			c.Fail("closure", "node %d is an ancestor of want %d, is not an ancestor of an acknowledged common commit (%d) and is not sent (%d commits sent); %s", i, maxWant, common, len(sent), desc)
+			return
+		}
+	}
+	if have >= 0 && have <= maxWant && common < 0 && !twoRounds {
+		// a have that is an ancestor of a want is a commit of this history reachable from the ref: it must be acknowledged
+		c.Fail("acks", "have %d is an ancestor of want %d but was not acknowledged; %s", have, maxWant, desc)
+		return
+	}
+	if gets := db.Gets; gets > 8*(2*n)*(2*n)+64 {
+		c.Fail("read-bound", "%d store reads for a history of %d commits; %s", gets, n, desc)
+		return
+	}
+	c.Outcome(fmt.Sprintf("sent-%s-common=%v", map[bool]string{true: "some", false: "none"}[len(sent) > 0], common >= 0))
+	c.Nontrivial(desc)
+	if c.WantSample() && have > 0 && len(wants) == 2 {
+		c.Sample(map[string]any{"case": desc, "sent": len(sent), "store_reads": db.Gets})
+	}
+}
+
 func init() {
 	register(&mc.Check{
 		ID:    "C08",
@@ -418,7 +553,7 @@ func init() {
 		Rule: "every commit DAG with 1..4 (thorough 5) nodes x ref-tip subsets x want subsets (<=3) x have subsets x depth 0..2, completely; crossed with up to d deviations (d per harness, in the evidence) from the defaults of: " +
 			"commit-time order {ascending, descending, equal}, an unknown hash first/last among the haves, reversed have order, split of the haves into two Process rounds, done flag, one table absent, " +
 			"iteration order of the finder's want set (overlay-owned map order; all permutations); " +
-			"plus diamond and criss-cross ladders of 1..16 (20) levels for the read-count bound. Each negotiation runs the real ClosedSetsFinder over real commit objects and the SQL ref store and is compared " +
+			"plus diamond and criss-cross ladders of 1..16 (20) levels for the read-count bound; plus (long-chains) linear histories of 1023, 1024, 1025, 1200, 2047, 2049 and 2100 commits with one or two wants from {5, n/2, n-2, tip} in both map orders, no have or one have at 3 / n/2+7 / n-2, haves in the first or in a second round, judged by an index oracle (ancestors of node i are 0..i). Each negotiation runs the real ClosedSetsFinder over real commit objects and the SQL ref store and is compared " +
 			"with bitmask reachability: closure, parent-first order, nothing unreachable, depth-limited tables, refusal of unreachable wants (also when the refused request is repeated on the same finder), acks, reads <= 8(n+e)^2+64. " +
 			"non-trivial = at least two commits sent or a common commit acknowledged; distinct by full case description",
 		Assumptions: []string{
@@ -433,6 +568,7 @@ func init() {
 				Budget: map[string]time.Duration{"quick": 3 * time.Minute, "thorough": 14 * time.Minute}},
 			{Name: "dags-n5", OnlyTier: "thorough", Body: c08Body(5, 5, map[string]int{"thorough": 2}), DevBound: map[string]int{"thorough": 1},
 				Budget: map[string]time.Duration{"thorough": 14 * time.Minute}},
+			{Name: "long-chains", Body: c08LongChain, Budget: map[string]time.Duration{"quick": 60 * time.Second, "thorough": 5 * time.Minute}},
 			{Name: "ladders", Body: c08Ladder, Budget: map[string]time.Duration{"quick": 60 * time.Second, "thorough": 5 * time.Minute}},
 		},
 	})
